@@ -4,6 +4,7 @@ import (
 	"fmt"
 	"go/token"
 	"go/types"
+	"morlockverif/checker/internal/core"
 	"strings"
 
 	"golang.org/x/tools/go/ssa"
@@ -33,7 +34,7 @@ func runC03(c *Ctx) {
 	r := c.R
 	r.Rule("R03-balance", "in every function outside the board package that pushes moves, on every control path the pushes that succeeded are popped again: depth 0 at each return, consistent at joins, exactly 1 at each child search", 4)
 	r.Rule("R03-negamax", "the recursive call searches depth-1 with (Negate(beta), Negate(current alpha)); the child's score reaches comparisons only as Negate(IncrementMateDistance(child)); alpha is replaced only by such a score under alpha.Less(score) (or Max); the cut-off test is alpha == beta or beta.Less(alpha); the PV is move :: child PV under the same guard", 3)
-	r.Rule("R03-terminal", "the mate/stalemate verdict is returned exactly on paths where no push succeeded, -inf iff checkmate else zero; a drawn node returns zero before anything else", 3)
+	r.Rule("R03-terminal", "the mate/stalemate verdict is returned exactly on paths where no push succeeded, -inf iff checkmate else zero; a drawn node returns zero before anything else; no node returns on a cut-off before a move was tried or the verdict produced", 5)
 	r.Rule("R03-order", "move ordering is a permutation: NewMoveList copies each input move once, Next pops until empty, the heap never grows, priorities only read the move", 4)
 
 	m := newSearchModel(c, "R03-balance")
@@ -43,6 +44,17 @@ func runC03(c *Ctx) {
 	c.guard("R03-balance", func() { c03Balance(c, m) })
 	c.guard("R03-negamax", func() { c03Paths(c, m) })
 	c.guard("R03-order", func() { c03Order(c) })
+	// a cut-off taken before any move was tried would hide a mate/stalemate at that node (rule of C13)
+	c.guard("R03-terminal", func() {
+		rec := recursiveSearchFuncs(c, m)
+		m.children = map[*ssa.Function]bool{}
+		for _, f := range rec {
+			m.children[f] = true
+		}
+		r.WithAlias("R13-failhard", "-", func() {
+			r.WithAlias("R13-exact", "R03-terminal", func() { c13FailHard(c, m, rec) })
+		})
+	})
 }
 
 // isChildCall: a call that evaluates a child node (recursion, or a Search/QuietSearch implementation).
@@ -200,7 +212,7 @@ func c03Paths(c *Ctx, m *searchModel) {
 		// parameter roles by type/name: depth (int), alpha, beta (Score)
 		var alphaP, betaP, depthP string
 		for _, p := range fn.Params {
-			if n := namedOf(p.Type()); n != nil && n.Obj().Name() == "Score" {
+			if n := namedOf(p.Type()); n != nil && core.ObjName(n.Obj()) == "Score" {
 				if alphaP == "" {
 					alphaP = p.Name()
 				} else if betaP == "" {
@@ -341,6 +353,41 @@ func c03Paths(c *Ctx, m *searchModel) {
 			if depth != 0 {
 				badN = joinNonEmpty(badN, "unbalanced path")
 			}
+			// the move loop is left early only by the cut-off (alpha >= beta) or by cancellation: any
+			// other early exit skips moves minimax would have searched
+			if pushed && !nextExhausted(sp) {
+				hasNext, cancelled := false, false
+				for _, e := range sp.events {
+					if e.Kind == evNext {
+						hasNext = true
+					}
+					if e.Kind == evCancel {
+						if v, known := decided(st, tagOf(e)); known && v {
+							cancelled = true
+						}
+					}
+				}
+				if hasNext && !cancelled {
+					cut := false
+					if alphaP != "" {
+						for _, f := range st.Facts {
+							if !f.Truth {
+								continue
+							}
+							fs := vstrOf(f.Cond)
+							if strings.HasPrefix(fs, "==(") && strings.HasSuffix(fs, ","+betaP+")") {
+								cut = true
+							}
+							if strings.HasPrefix(fs, "Less("+betaP+",") {
+								cut = true
+							}
+						}
+					}
+					if !cut {
+						badN = joinNonEmpty(badN, "the move loop is left before all moves were tried on a path that is neither a cut-off (alpha >= beta) nor a halt ["+st.FactsString()+"]")
+					}
+				}
+			}
 		}
 		if nChild == 0 {
 			badN = "no recursive child search found"
@@ -436,7 +483,7 @@ func c03Order(c *Ctx) {
 	r.Check(okLen && okCopy, "R03-order", "board.NewMoveList copies each input move into its own slot", c.pos(nml.Pos()), "", fmt.Sprintf("len ok=%v element copy ok=%v %s", okLen, okCopy, why))
 	in := newInterp(c.P)
 	// heap methods
-	if push := c.P.Func("pkg/board", "moveHeap", "Push"); push != nil {
+	if push := c.find("pkg/board", "moveHeap", "Push"); push != nil {
 		panics := false
 		for _, b := range push.Blocks {
 			for _, ins := range b.Instrs {
@@ -457,7 +504,7 @@ func c03Order(c *Ctx) {
 		}
 		r.Check(panics && !grows, "R03-order", "board.moveHeap never grows", c.pos(push.Pos()), "", "Push must not add elements (would duplicate or invent moves)")
 	}
-	if pop := c.P.Func("pkg/board", "moveHeap", "Pop"); pop != nil {
+	if pop := c.find("pkg/board", "moveHeap", "Pop"); pop != nil {
 		var args []absint.Value
 		for _, p := range pop.Params {
 			args = append(args, absint.NewSym(p.Type(), p.Name()))
@@ -478,7 +525,7 @@ func c03Order(c *Ctx) {
 		}
 		r.Check(good, "R03-order", "board.moveHeap.Pop removes exactly the last element", c.pos(pop.Pos()), "", detail)
 	}
-	if next := c.P.Func("pkg/board", "MoveList", "Next"); next != nil {
+	if next := c.find("pkg/board", "MoveList", "Next"); next != nil {
 		// Next: (zero,false) exactly when the list is empty; otherwise one heap.Pop. Decided over
 		// the size as a symbolic non-negative integer, so any form of the emptiness test is fine.
 		in2 := newInterp(c.P)
@@ -538,7 +585,7 @@ func c03Order(c *Ctx) {
 	var offenders []string
 	for _, rel := range []string{"pkg/board", "pkg/search"} {
 		for _, name := range []string{"First", "MVVLVA", "Selection", "IsAnyMove", "FullExploration"} {
-			fn := c.P.Func(rel, "", name)
+			fn := c.find(rel, "", name)
 			if fn == nil {
 				continue
 			}
@@ -547,7 +594,7 @@ func c03Order(c *Ctx) {
 				for _, b := range f.Blocks {
 					for _, ins := range b.Instrs {
 						if st, ok := ins.(*ssa.Store); ok {
-							if n, _, _, ok := addrField(st.Addr); ok && n.Obj().Name() == "Move" {
+							if n, _, _, ok := addrField(st.Addr); ok && core.ObjName(n.Obj()) == "Move" {
 								if _, fresh := isFreshAlloc(st.Addr); !fresh {
 									offenders = append(offenders, c.P.FuncName(f))
 								}
